@@ -68,6 +68,21 @@ def be_width(callee):
     return None
 
 
+def be_elem(t):
+    """(X, n, i) if t is byte i of the n-byte array X.to_be_bytes()"""
+    if t[0] == "sproj" and isinstance(t[2], int):
+        arr, i = t[1], t[2]
+    elif t[0] == "index" and t[2][0] == "lit" and isinstance(t[2][1], int):
+        arr, i = t[1], t[2][1]
+    else:
+        return None
+    arr = norm(arr)
+    w = be_width(arr[1]) if arr[0] == "call" else None
+    if w is None or len(arr[2]) != 1 or not 0 <= i < w:
+        return None
+    return arr[2][0], w, i
+
+
 def byte_of(t):
     """(X, shift) if t is `(X >> shift) as u8` with an optional & 0xFF mask (shift 0: `X as u8`)"""
     if t[0] != "cast" or t[2] != "u8":
@@ -181,6 +196,15 @@ class Chain2:
                             ok = False
                 if ok:
                     out.append(Seg("be", b[0], s.effect, n=n, guard=(b[0], (1 << (8 * n)) - 1)))
+                    i += n
+                    continue
+            # all bytes of X.to_be_bytes(), taken apart and appended one by one in order
+            eb = be_elem(s.term) if s.kind == "byte" else None
+            if eb is not None and eb[2] == 0:
+                n = eb[1]
+                grp = raw[i:i + n]
+                if len(grp) == n and all(g.kind == "byte" and be_elem(g.term) == (eb[0], n, j) for j, g in enumerate(grp)):
+                    out.append(Seg("be", eb[0], s.effect, n=n))
                     i += n
                     continue
             out.append(s)
